@@ -271,19 +271,27 @@ def q4(rep, f_peep):
     opn, _, argn = parms
     body = fn["body"]
     sw = None
-    guards = []
+    guards = []          # each guard: list of (condition, polarity) that must all hold for a `return NULL` before the switch
+    par_q4 = common.parents(body)
     for st in body["c"]:
         if st is None:
             continue
         if st["k"] == "SwitchStmt" and strip(st["c"][0]) is not None and strip(st["c"][0]).get("n") == opn:
             sw = st
             break
-        if st["k"] == "IfStmt" and st["c"][2] is None:
-            then = st["c"][1]
-            while then is not None and then["k"] == "CompoundStmt" and len(then["c"]) == 1:
-                then = then["c"][0]
-            if then is not None and then["k"] == "ReturnStmt" and then["c"] and const_value(then["c"][0]) == 0:
-                guards.append(st)
+        for r in walk(st):
+            if r["k"] == "ReturnStmt" and r["c"] and const_value(r["c"][0]) == 0:
+                chain = []
+                ch, p = r, par_q4.get(r["id"])
+                while p is not None and p["id"] != body["id"]:
+                    if p["k"] == "IfStmt":
+                        if p["c"][1] is not None and p["c"][1]["id"] == ch["id"]:
+                            chain.append((p["c"][0], True))
+                        elif p["c"][2] is not None and p["c"][2]["id"] == ch["id"]:
+                            chain.append((p["c"][0], False))
+                    ch, p = p, par_q4.get(p["id"])
+                if chain:
+                    guards.append(chain)
     if sw is None:
         raise AnalysisBroken("peepMakeUnaryOp: switch on the op parameter not found")
     rec = f_peep.records.get("_bvalOpInfo")
@@ -320,7 +328,11 @@ def q4(rep, f_peep):
                 raise AnalysisBroken("peepMakeUnaryOp: the default arm drops the operand; the rule cannot enumerate the ops it covers")
             ndrop += 1
             key = "purity-guard:peepMakeUnaryOp:%s" % lon
-            verdicts = [peval(gd["c"][0], {opn: lo}, lookup) for gd in guards]
+            verdicts = []
+            for chain in guards:
+                vs = [peval(cond, {opn: lo}, lookup) for cond, pol in chain]
+                verdicts.append(1 if all(v is not None and bool(v) == pol for v, (_, pol) in zip(vs, chain)) else
+                                (0 if any(v is not None and bool(v) != pol for v, (_, pol) in zip(vs, chain)) else None))
             if any(v is not None and v != 0 for v in verdicts):
                 rep.ok("Q4", key, sample={"op": lon, "rule": "with op=%s and an impure operand a preceding `return NULL` guard is true" % lon}
                        if ndrop <= 2 else None)
